@@ -415,3 +415,5 @@ func canonRESP(v srv.Value) string {
 	}
 	return "?"
 }
+
+func deadline(sec int) time.Time { return time.Now().Add(time.Duration(sec) * time.Second) }
